@@ -153,6 +153,9 @@ var verifTypeOfKind = func() map[string]uint8 {
 // ---------------------------------------------------------------------------- state access
 
 func (s *VerifScript) Master() []byte { return append([]byte(nil), s.master...) }
+
+// HasMaster reports whether the script knows the master secret of this handshake.
+func (s *VerifScript) HasMaster() bool { return len(s.master) > 0 }
 func (s *VerifScript) ClientRandom() []byte {
 	if s.clientHello == nil {
 		return nil
